@@ -1,4 +1,4 @@
-"""C16 -- files survive rope byte-for-byte apart from the intended edit (clauses R16.1-R16.12)."""
+"""C16 -- files survive rope byte-for-byte apart from the intended edit (clauses R16.1-R16.14)."""
 from __future__ import annotations
 
 import ast
@@ -19,6 +19,7 @@ EXPLANATION = (
     "not decided."
     " R16.9: _find_coding accepts both PEP 263 delimiters and every character of the interpreter's codec names.  R16.10: the declaring line is found like tokenize.detect_encoding does (cookie pattern inclusion, two lines, stop at a first line that is neither blank nor comment)."
 )
+EXPLANATION += ' R16.13: the declared codec name is normalised like tokenize._get_normal_name.  R16.14: the newline convention is captured after a read of the resource.'
 EXPLANATION += ' R16.12: the keyword search for the encoding declaration retries after a hit that no delimiter follows.'
 ASSUMPTIONS = ["str.encode() without argument means utf-8 (language definition)",
                "codec aliases are compared through codecs.lookup of the running interpreter"]
@@ -59,6 +60,8 @@ def check(ctx, res) -> None:
     cookie_line_rule(ctx, res, "R16.10")
     encoding_from_text_rule(ctx, res, "R16.11")
     declaration_keyword_rule(ctx, res, "R16.12")
+    codec_name_normalisation_rule(ctx, res, "R16.13")
+    newline_capture_rule(ctx, res, "R16.14")
 
 
 def _check_main(ctx, res) -> None:
@@ -522,6 +525,11 @@ def cookie_line_rule(ctx, res, rule: str) -> None:
         if isinstance(e, ast.Name):
             out: Set[str] = set()
             binds = [x.value for x in walk_local(f.node) if isinstance(x, ast.Assign) and any(isinstance(t, ast.Name) and t.id == e.id for t in x.targets)]
+            # `newline, indent = "\\n", " \\t\\f"`: element-wise
+            for x in walk_local(f.node):
+                if isinstance(x, ast.Assign) and len(x.targets) == 1 and isinstance(x.targets[0], ast.Tuple) and isinstance(x.value, ast.Tuple) \
+                        and len(x.targets[0].elts) == len(x.value.elts):
+                    binds += [v for t, v in zip(x.targets[0].elts, x.value.elts) if isinstance(t, ast.Name) and t.id == e.id]
             if not binds:
                 binds = [x.value for x in f.unit.tree.body if isinstance(x, ast.Assign) and any(isinstance(t, ast.Name) and t.id == e.id for t in x.targets)]
             for b in binds:
@@ -544,6 +552,20 @@ def cookie_line_rule(ctx, res, rule: str) -> None:
         raise AnalysisError("anchor=fscommands.read_str_coding: the constant coding-line pattern not found")
     rope_pat = coding[0]
     pat_line = next(c.lineno for c, ps in matches if rope_pat in ps)
+    # the line may be stripped of its leading blanks first (`line = line.lstrip(" \\t\\f")`) and the patterns written without
+    # that prefix: the language recognised is then <those characters>* followed by the pattern
+    import re as _re
+    strip_prefix = ""
+    for x in walk_local(f.node):
+        if isinstance(x, ast.Assign) and isinstance(x.value, ast.Call) and call_name(x.value) == "lstrip" and x.value.args and len(x.targets) == 1 \
+                and isinstance(x.targets[0], ast.Name) and isinstance(x.value.func, ast.Attribute) and isinstance(x.value.func.value, ast.Name) \
+                and x.value.func.value.id == x.targets[0].id:
+            chars = resolve(x.value.args[0])
+            if len(chars) == 1:
+                strip_prefix = "[" + _re.escape(next(iter(chars))) + "]*"
+                stripped_var = x.targets[0].id
+    if strip_prefix:
+        rope_pat = strip_prefix + rope_pat.lstrip("^")
     tok_pat = tokenize.cookie_re.pattern
     uses_match = any(isinstance(c, ast.Call) and call_name(c) == "match" for c in ast.walk(f.node))
     if not uses_match:
@@ -571,6 +593,19 @@ def cookie_line_rule(ctx, res, rule: str) -> None:
                 for bp in sorted(resolve(applied(t))):
                     if "coding" not in bp:
                         stops.append((nd.ast, bp))
+    if not stops and strip_prefix:
+        # the blank-or-comment test written without a pattern: the scan stops where `line and not line.startswith("#")`
+        for nd in scfg.nodes:
+            if nd.kind != "stmt" or not isinstance(nd.ast, (ast.Return, ast.Break)) or not scfg.loop_guards(nd.id):
+                continue
+            gs = scfg.guards(nd.id)
+            truthy = any(pol and isinstance(t, ast.Name) and t.id == stripped_var for t, pol in gs)
+            starts = [t for t, pol in gs if not pol and isinstance(t, ast.Call) and call_name(t) == "startswith" and isinstance(t.func, ast.Attribute)
+                      and isinstance(t.func.value, ast.Name) and t.func.value.id == stripped_var and t.args]
+            if truthy and starts:
+                cs = resolve(starts[0].args[0])
+                if len(cs) == 1:
+                    stops.append((nd.ast, strip_prefix + "(?:" + _re.escape(next(iter(cs))) + "|$)"))
     if not stops:
         res.add(rule, "read_str_coding|stops-at-code", False, f"{f.unit.rel}:{f.node.lineno}",
                 "the second line is examined whatever the first line is: `import os` / `# coding: latin-1` declares nothing for the interpreter "
@@ -660,3 +695,87 @@ def declaration_keyword_rule(ctx, res, rule: str) -> None:
             f"`{ast.unparse(searches[0])}` looks at ONE occurrence of the word: in `# encoding and decoding helpers -*- coding: latin-1 -*-` the first `coding` is followed "
             "by a space, the function answers 'no declaration', and a file the interpreter (and rope's own line pattern) reads as latin-1 is written back as "
             "UTF-8 -- every non-ASCII character changes its bytes while the file still declares latin-1", function=f.qualname)
+
+
+def codec_name_normalisation_rule(ctx, res, rule: str) -> None:
+    """R16.13: the name in the coding line is not yet the codec: the interpreter normalises it (`tokenize._get_normal_name`:
+    `utf-8-unix`, `utf-8-sig`, `UTF_8_mac` -> utf-8; `latin-1-unix`, `iso-latin-1-dos` -> iso-8859-1), and a declaration can
+    neither demand nor forbid a byte order mark.  Every name `_find_coding` returns passes through a function of the module
+    that -- evaluated by the folder on the interpreter's own table of spellings -- answers like `_get_normal_name`."""
+    import tokenize
+
+    from .. import fold
+    idx = ctx.idx
+    f = idx.need_func("rope.base.fscommands._find_coding")
+    rets = [r for r in walk_local(f.node) if isinstance(r, ast.Return) and r.value is not None and not (isinstance(r.value, ast.Constant) and r.value.value is None)]
+    if not rets:
+        raise AnalysisError("anchor=fscommands._find_coding returns no name")
+    through = set()
+    raw = None
+    for r in rets:
+        v = r.value
+        if isinstance(v, ast.Call) and isinstance(v.func, ast.Name) and f"{f.unit.modname}.{v.func.id}" in idx.functions:
+            through.add(f"{f.unit.modname}.{v.func.id}")
+        else:
+            raw = r
+    if raw is not None or len(through) != 1:
+        res.add(rule, "_find_coding|declared-name-is-normalised", False, f"{f.unit.rel}:{(raw or rets[0]).lineno}",
+                "the name cut out of the coding line is used as it is written: `# coding: utf-8-unix` (utf-8 for the interpreter) makes every write raise LookupError, and "
+                "`# coding: utf-8-sig` on a file without a byte order mark makes every write prepend one", function=f.qualname)
+        return
+    q = through.pop()
+    folder = fold.get(ctx)
+    samples = ["utf-8", "utf-8-sig", "utf-8-unix", "UTF_8_mac", "utf8", "latin-1", "latin-1-unix", "Latin-1", "iso-latin-1-dos", "iso-8859-1", "iso-8859-15", "cp1252", "ascii", "shift_jis"]
+    wrong, unfolded = [], 0
+    for n_ in samples:
+        try:
+            got = folder.call_function(q, [n_])
+        except fold.Unfoldable:
+            unfolded += 1
+            continue
+        if got != tokenize._get_normal_name(n_):
+            wrong.append((n_, got, tokenize._get_normal_name(n_)))
+    if unfolded == len(samples):
+        res.undecided(rule, "_find_coding|declared-name-is-normalised", f.where, f"{q} could not be evaluated")
+        return
+    res.add(rule, "_find_coding|declared-name-is-normalised", not wrong, idx.functions[q].where,
+            f"{q.split('.')[-1]} answers like tokenize._get_normal_name on {len(samples) - unfolded} spellings" if not wrong else
+            f"{q.split('.')[-1]} maps {wrong[0][0]!r} to {wrong[0][1]!r}, the interpreter to {wrong[0][2]!r}: the file is read and written with another codec than the "
+            "one it is executed with", function=q, wrong=[w[0] for w in wrong])
+
+
+def newline_capture_rule(ctx, res, rule: str) -> None:
+    """R16.14: `File.newlines` is what the LAST READ through that File object detected; a File object that never read holds None.
+    Wherever a content change remembers the convention of the text it is about to replace (an attribute set from
+    `self.resource.newlines` in do()), a read of the resource lies on every path to that statement -- also on the path of
+    a change rebuilt from the saved history, which knows its old contents and would not read for their sake."""
+    from . import common as _common
+    idx = ctx.idx
+    cc = idx.need_class("rope.base.change.ChangeContents")
+    do = cc.methods.get("do")
+    if do is None:
+        raise AnalysisError("anchor=ChangeContents.do missing")
+    node = _common.inlined(idx, do)
+    cfg = CFG(node)
+    n = 0
+    for nd in cfg.nodes:
+        st = nd.ast
+        if nd.kind != "stmt" or not isinstance(st, ast.Assign) or not any(is_self_attr(t) for t in st.targets):
+            continue
+        if not (isinstance(st.value, ast.Attribute) and st.value.attr == "newlines" and is_self_attr(st.value.value, "resource")):
+            continue
+        n += 1
+        reads = [x.id for x in cfg.nodes if x.ast is not None and x.kind in ("stmt", "test") and any(
+            call_name(c) == "read" and isinstance(c.func, ast.Attribute) and is_self_attr(c.func.value, "resource") for c in calls_in(x.ast) + ([x.ast] if isinstance(x.ast, ast.Call) else []))]
+        known = [(x.id, b, lab) for x in cfg.nodes if x.kind == "test" and isinstance(x.ast, ast.Compare) and len(x.ast.ops) == 1
+                 and isinstance(x.ast.left, ast.Attribute) and x.ast.left.attr == "newlines" and isinstance(x.ast.comparators[0], ast.Constant) and x.ast.comparators[0].value is None
+                 for b, lab in cfg.succ[x.id] if lab == ("false" if isinstance(x.ast.ops[0], ast.Is) else "true")]
+        # (a file that does not exist has no convention to detect)
+        known += [(x.id, b, lab) for x in cfg.nodes if x.kind == "test" and isinstance(x.ast, ast.Call) and call_name(x.ast) == "exists"
+                  for b, lab in cfg.succ[x.id] if lab == "false"]
+        ok = bool(reads) and nd.id not in cfg.reachable(cfg.entry.id, avoid_nodes=reads, avoid_edges=known)
+        res.add(rule, f"ChangeContents.do|newline-convention-captured-after-a-read#{n}", ok, f"{do.unit.rel}:{st.lineno}",
+                "the convention is captured after a read of the resource on every path (or where it is already known)" if ok else
+                f"`{ast.unparse(st)}` can run although this File object never read the file (old_contents known: a change rebuilt from the saved history): None is captured, "
+                "saved with the change at the next close, and a later undo restores a CRLF file with LF line ends", function=do.qualname)
+    res.floor(rule, "captures of the newline convention in do()", n, 1)
